@@ -40,6 +40,18 @@ def gen_inputs(ck):
         add("random-syntax-bytes", [b"interface a.b\n" + bytes(rng.choice(b" \t\r\n#():,->?[]_.aZ09x\x00\xff") for _ in range(n))])
     for v in valid[:12 if thorough else 4]:
         add("byte-mutation", G.byte_mutations(v, rng, 3000 if thorough else 300))
+    # type references the parser does not resolve: cycles through aliases (with and without constructors on the way), self references,
+    # undefined names; each used below every constructor at every position - anything that chases references must terminate
+    import itertools as _it
+    cyc = [[("A", "A")], [("A", "B"), ("B", "A")], [("A", "B"), ("B", "C"), ("C", "A")], [("A", "?A")], [("A", "[]A")], [("A", "(x: A)")], [("A", "?B"), ("B", "A")],
+           [("A", "[string]B"), ("B", "?A")], [("A", "Undefined")], [("A", "(a: int)"), ("B", "A")]]
+    uses = ["A", "?A", "[]A", "[string]A", "?[]A", "(y: A)", "(y: ?A)", "[]?A"]
+    for defs, use in _it.product(cyc, uses):
+        body = b"".join(b"type %s %s\n" % (n.encode(), t.encode()) for n, t in defs)
+        add("reference-cycles", [b"interface a.b\n" + body + b"method M(x: %s) -> ()\n" % use.encode(),
+                                 b"interface a.b\n" + b"method M() -> (r: %s)\n" % use.encode() + body,
+                                 b"interface a.b\n" + body + b"method M() -> ()\nerror E (e: %s)\n" % use.encode(),
+                                 b"interface a.b\n" + body + b"type Z %s\nmethod M() -> ()\n" % use.encode()])
     small = b"interface a.b\ntype T (a: ?[]int, b: [string](x, y))\n# d\nmethod M(a: T) -> (b: bool)\nerror E (c: string)\n"
     add("every-byte", G.every_byte_everywhere(small, None if thorough else range(0, len(small) + 1, 2)))
     # nesting that alternates constructors (a per-level re-parse would be exponential)
